@@ -207,6 +207,10 @@ func c05Flat(r *RNG, nops int, depth int) string {
 }
 
 func runC05(c *Ctx) error {
+	// handwritten programs (shapes that once slipped through), run by the Go toolchain
+	if err := c.runCorpus("C05-programs"); err != nil {
+		return err
+	}
 	c.Rep.Rule = "expression texts: exhaustive operator sequences (all 19 binary operators incl. &^, unary prefixes, paren placements) up to the tier's size + random flat token strings; distinct = distinct text; non-trivial = go/parser tree has >= 2 operator nodes"
 	// corpus of past failures first
 	corpus := []string{"1<<3 - 1", "6 | 1 + 1", "a << 2 + b", "!a == b", "- -5", "-(-5)", "-(5)", "a &^ b * c", "a - -b", "^a + b", "!p == q != p", "a & b == c", "a == b & c"}
